@@ -134,9 +134,8 @@ func BarExtender(filler BarFiller, rev bool) BarOption {
 	if f, ok := filler.(BarFillerFunc); ok && f == nil {
 		return nil
 	}
-	fn := makeExtenderFunc(filler, rev)
 	return func(s *bState) {
-		s.extender = fn
+		s.extender = makeExtenderFunc(filler, rev) // a buffer of its own for every bar the option is applied to
 	}
 }
 
